@@ -1,2 +1,82 @@
-/- stub: line-protocol driver for C02 (to be written) -/
-def main : IO Unit := pure ()
+/- Line-protocol driver for the expression grammar model (C02; also used by C03).
+   Commands (one per line, tab separated):
+     T <sexp>     surface tree → "<wf>\t<min text>\t<full text>\t<kind tree>\t<parse(min)>\t<parse(full)>"
+     P <text>     lex + parse with the generated table → kind tree | REJECT
+     S <text>     lex + parse with the hand-written reference table → kind tree | REJECT
+     L <digits>   the integer-literal rule → nat n | posNegMax | overflow
+-/
+import UtapModel.Model.Sexp
+import UtapModel.Model.ExprTable
+import UtapModel.Spec.OperatorTable
+open UtapModel UtapModel.Pratt UtapModel.ExprTable UtapModel.ExprGrammar
+
+def tokOfName (n : String) : Nat := tokId n
+
+def fnOfName (n : String) : Nat := (fnProds.findIdx? (fun x => x.1 == n)).getD 9999
+
+partial def toExpr : Sexp → Option Expr
+  | .atom "true" => some (.atom .tru)
+  | .atom "false" => some (.atom .fls)
+  | .list [.atom "nat", .atom n] => n.toNat?.map (fun k => .atom (.nat k))
+  | .list [.atom "intmin"] => some (.atom .intMin)
+  | .list [.atom "dbl", .atom s] => some (.atom (.dbl s))
+  | .list [.atom "str", .atom s] => some (.atom (.str s))
+  | .list [.atom "id", .atom s] => some (.atom (.ident s))
+  | .list [.atom "pre", .atom t, e] => (toExpr e).map (.pre (tokOfName t))
+  | .list [.atom "post", .atom t, e] => (toExpr e).map (.post (tokOfName t))
+  | .list [.atom "bin", .atom t, l, r] => do let a ← toExpr l; let b ← toExpr r; pure (.bin (tokOfName t) a b)
+  | .list [.atom "quant", .atom t, .atom id, .atom ty, e] => (toExpr e).map (.quant (tokOfName t) id ty)
+  | .list [.atom "dot", .atom n, e] => (toExpr e).map (.dot n)
+  | .list [.atom "dotloc", e] => (toExpr e).map .dotLoc
+  | .list [.atom "tern", c, a, b] => do let x ← toExpr c; let y ← toExpr a; let z ← toExpr b; pure (.tern x y z)
+  | .list [.atom "index", a, i] => do let x ← toExpr a; let y ← toExpr i; pure (.index x y)
+  | .list [.atom "fn", .atom n, a] => (toExpr a).map (.fn1 (fnOfName n))
+  | .list [.atom "fn", .atom n, a, b] => do let x ← toExpr a; let y ← toExpr b; pure (.fn2 (fnOfName n) x y)
+  | .list [.atom "fn", .atom n, a, b, c] => do
+      let x ← toExpr a; let y ← toExpr b; let z ← toExpr c; pure (.fn3 (fnOfName n) x y z)
+  | .list (.atom "call" :: f :: args) => do
+      let g ← toExpr f
+      let as ← args.mapM toExpr
+      pure (.call g (as.foldr .acons .anil))
+  | _ => none
+
+def parseWith (D : Data) (text : String) : String :=
+  match lexExpr text with
+  | none => "REJECT"
+  | some ts =>
+    match parseTop D.tbl ts with
+    | some e => (toK D e).str
+    | none => "REJECT"
+
+def stepLine (line : String) : String :=
+  let line := String.ofList (line.toList.reverse.dropWhile (fun c => c == '\n' || c == '\r')).reverse
+  match line.splitOn "\t" with
+  | ["T", s] =>
+    match Sexp.parse s with
+    | none => "bad-sexp"
+    | some sx =>
+      match toExpr sx with
+      | none => "bad-tree"
+      | some e =>
+        let w := wf utapT mt false e
+        let tmin := toksText (render utapT mt false 0 e)
+        let tfull := toksText (render utapT mt true 0 e)
+        "\t".intercalate [toString w, tmin, tfull, (toK genData e).str, parseWith genData tmin, parseWith genData tfull]
+  | ["P", text] => parseWith genData text
+  | ["S", text] => parseWith UtapModel.Spec.specData text
+  | ["L", ds] =>
+    match lexNum ds.toList with
+    | .nat n => "nat " ++ toString n
+    | .posNegMax => "posNegMax"
+    | .overflow => "overflow"
+  | _ => "bad-op"
+
+partial def loop (h : IO.FS.Stream) (out : IO.FS.Stream) : IO Unit := do
+  let line ← h.getLine
+  if line.isEmpty then return ()
+  out.putStrLn (stepLine line)
+  loop h out
+
+def main : IO Unit := do
+  let out ← IO.getStdout
+  loop (← IO.getStdin) out
